@@ -61,7 +61,7 @@ def _force_version(seq, mv, strip_extended):
 
 class Pool(object):
     def __init__(self, cfg):
-        self.cfg = dict(cfg, level=0, nseq=1, extras=None, npics=NPICS, first_pic_num=0)
+        self.cfg = dict(cfg, level=cfg.get("real_level", 0), nseq=1, extras=None, npics=NPICS, first_pic_num=0)
         c = self.cfg
         self.hq = c["profile"] == 3
         self.asym = c["wavelet"] != c["wavelet_ho"] or c["depth_ho"] != 0
@@ -69,12 +69,18 @@ class Pool(object):
         self.frag_code = HQ_FRAG if self.hq else LD_FRAG
         self.total_slices = c["sx"] * c["sy"]
         self.pcm = c["pcm"]
+        self.real = bool(cfg.get("real_level"))
+        self.npics = 2 if self.real else NPICS
+        self.cfg["npics"] = self.npics
         self.pictures = {}
+        self.alt_pictures = {}  # same pictures coded with other transform parameters (cfg["mix"])
+        self.alt_asym = False
         self.fragments = None
         self._headers = {}
         self._sh_variants = None
         try:
-            self._build()
+            with R.level_mode(self.real):
+                self._build()
         except W.WorkloadError:
             raise
         except Exception as e:  # encoder/serialiser refused: precondition
@@ -93,8 +99,28 @@ class Pool(object):
             _force_version(seq, 3 if cls == "v3" else low, cls == "pre3")
             units = _cut(W.serialise([seq]))
             self.pictures[cls] = [b for (code, b) in units if code in (LD_PIC, HQ_PIC)]
-            if len(self.pictures[cls]) != NPICS:
+            if len(self.pictures[cls]) != self.npics:
                 raise W.WorkloadError("unexpected picture count")
+        mix = self.cfg.get("mix")
+        if mix and not self.real:
+            c2 = dict(self.cfg)
+            c2.update(mix)
+            c2["frag"] = 0
+            if not self.cfg["lossless"]:
+                c2["picture_bytes"] = max(self.cfg["picture_bytes"], 4 * mix["sx"] * mix["sy"] + self.cfg["picture_bytes"])
+            self.alt_asym = mix["wavelet"] != mix["wavelet_ho"] or mix["depth_ho"] != 0
+            for cls in ("v3", "pre3"):
+                if cls == "pre3" and (self.alt_asym or self.asym):
+                    continue
+                try:
+                    seq = make_sequence(W.build_codec_features(c2), W.make_pictures(self.cfg))
+                    _force_version(seq, 3 if cls == "v3" else low, cls == "pre3")
+                    units = _cut(W.serialise([seq]))
+                    pics = [b for (code, b) in units if code in (LD_PIC, HQ_PIC)]
+                    if len(pics) == self.npics:
+                        self.alt_pictures[cls] = pics
+                except Exception:  # noqa: BLE001 — the sender refused this variant
+                    pass
         if self.cfg["frag"]:
             _cf, seq = self._seq(self.cfg["frag"])
             _force_version(seq, 3, False)
@@ -108,19 +134,19 @@ class Pool(object):
                         pics[-1].append((b, 0, 0, 0))
                     else:
                         pics[-1].append((b, count, int.from_bytes(b[8:10], "big"), int.from_bytes(b[10:12], "big")))
-            if len(pics) != NPICS:
+            if len(pics) != self.npics:
                 raise W.WorkloadError("unexpected fragmented picture count")
             self.fragments = pics
 
     def _variants(self):
         if self._sh_variants is None:
-            cf = W.build_codec_features(dict(self.cfg, frag=0))
+            cf = W.build_codec_features(dict(self.cfg, frag=0, level=self.cfg.get("real_level", 0)))
             it = iter_sequence_headers(cf)
             v0 = next(it)
             v1 = next(it, None)
-            cf2 = W.build_codec_features(dict(self.cfg, frag=0))
+            cf2 = W.build_codec_features(dict(self.cfg, frag=0, level=self.cfg.get("real_level", 0)))
             cf2["video_parameters"]["frame_rate_numer"] = 2
-            v2 = next(iter_sequence_headers(cf2))
+            v2 = next(iter_sequence_headers(cf2), None)
             self._sh_variants = [v0, v1, v2]
         return self._sh_variants
 
@@ -128,7 +154,8 @@ class Pool(object):
         """-> (body bytes, feature version of the coded presets) or None"""
         key = (variant, mv, lvl)
         if key not in self._headers:
-            sh = self._variants()[variant]
+            with R.level_mode(self.real):
+                sh = self._variants()[variant]
             if sh is None:
                 self._headers[key] = None
             else:
@@ -244,16 +271,18 @@ def assemble(pool, units):
                 governing_cls = "v3" if u["mv"] >= 3 else "pre3"
         elif t == "P":
             cls = governing_cls or "v3"
-            if cls not in pool.pictures:
+            src = pool.alt_pictures if (u.get("alt") and pool.alt_pictures) else pool.pictures
+            is_alt = src is pool.alt_pictures
+            if cls not in src:
                 cls = "v3"
                 misframed = True
-            body = bytearray(pool.pictures[cls][u["i"] % NPICS])
+            body = bytearray(src[cls][u["i"] % pool.npics])
             body[0:4] = (u["num"] & 0xFFFFFFFF).to_bytes(4, "big")
             a.code = u.get("code", pool.pic_code)
             a.num = u["num"] & 0xFFFFFFFF
-            a.feat = 3 if pool.asym else 1
+            a.feat = 3 if (pool.alt_asym if is_alt else pool.asym) else 1
         elif t == "F":
-            frs = pool.fragments[u["pic"] % NPICS]
+            frs = pool.fragments[u["pic"] % pool.npics]
             b, a.count, a.x, a.y = frs[u["j"] % len(frs)]
             body = bytearray(b)
             body[0:4] = (u["num"] & 0xFFFFFFFF).to_bytes(4, "big")
@@ -436,9 +465,9 @@ def model_verdict(abstract, profile_hq, pcm, slices_x, slices_y):
 # --------------------------------------------------------------------------
 
 
-def minimal_version(pool, uses_frag, header_hv=1):
+def minimal_version(pool, uses_frag, header_hv=1, uses_alt=False):
     v = 2 if pool.hq else 1
-    if uses_frag or pool.asym:
+    if uses_frag or pool.asym or (uses_alt and pool.alt_asym):
         v = 3
     return max(v, header_hv)
 
@@ -454,7 +483,10 @@ def template_sequence(rng, pool, lvl, force_frag=None):
         if pool.pcm == 1:
             n -= n % 2
         for k in range(n):
-            units += [{"t": "H"}, {"t": "P", "i": k}]
+            u = {"t": "P", "i": k}
+            if pool.alt_pictures and rng.random() < 0.4:
+                u["alt"] = True
+            units += [{"t": "H"}, u]
         if n == 0:
             pass
         units.append({"t": "E"})
@@ -471,13 +503,16 @@ def template_sequence(rng, pool, lvl, force_frag=None):
             units.append({"t": rng.choice(["H", "A", "X"])})
         frag_this = uses_frag if not mixed else rng.random() < 0.5
         if frag_this:
-            nf = len(pool.fragments[k % NPICS])
+            nf = len(pool.fragments[k % pool.npics])
             for j in range(nf):
                 units.append({"t": "F", "pic": k, "j": j})
                 if j < nf - 1 and rng.random() < 0.1:
                     units.append({"t": rng.choice(["A", "X", "H"])})
         else:
-            units.append({"t": "P", "i": k})
+            u = {"t": "P", "i": k}
+            if pool.alt_pictures and rng.random() < 0.4:
+                u["alt"] = True  # same picture, other transform parameters
+            units.append(u)
     if rng.random() < 0.2:
         units.append({"t": rng.choice(["A", "X", "H"])})
     units.append({"t": "E"})
@@ -566,12 +601,14 @@ def random_unit(rng, pool, var, mv, lvl):
             return {"t": "H", "var": var, "mv": rng.choice([1, 2, 3]), "lvl": lvl}
         return {"t": "H", "var": var, "mv": mv, "lvl": rng.choice(LEVELS)}
     if r < 0.45:
-        u = {"t": "P", "i": rng.randrange(NPICS)}
+        u = {"t": "P", "i": rng.randrange(pool.npics)}
+        if pool.alt_pictures and rng.random() < 0.3:
+            u["alt"] = True
         if rng.random() < 0.25:
             u["code"] = LD_PIC if pool.hq else HQ_PIC  # other profile's code
         return u
     if r < 0.7 and pool.fragments is not None:
-        pic = rng.randrange(NPICS)
+        pic = rng.randrange(pool.npics)
         u = {"t": "F", "pic": pic, "j": rng.randrange(len(pool.fragments[pic]))}
         if rng.random() < 0.15:
             u["code"] = LD_FRAG if pool.hq else HQ_FRAG
@@ -581,8 +618,8 @@ def random_unit(rng, pool, var, mv, lvl):
     return {"t": "E"}
 
 
-def gen_history(rng, pool, max_units=14):
-    lvl = rng.choice([0, 0, 0, 0, 1, 1, 2, 3, 4, 5, 6, 7, 64, 65, 66, 66])
+def gen_history(rng, pool, max_units=14, levels=None):
+    lvl = rng.choice(levels or [0, 0, 0, 0, 1, 1, 2, 3, 4, 5, 6, 7, 64, 65, 66, 66])
     nseq = rng.choice([1, 1, 1, 2, 3])
     var = rng.choice([0, 0, 0, 1, 2])
     units = []
@@ -595,7 +632,7 @@ def gen_history(rng, pool, max_units=14):
             var = 0
             h = pool.header(0, 3, lvl)
         hv = h[1]
-        m0 = minimal_version(pool, uses_frag, hv)
+        m0 = minimal_version(pool, uses_frag, hv, any(u.get("alt") for u in tmpl))
         mv = m0
         if not pool.asym and rng.random() < 0.2:
             mv = rng.choice([1, 2, 3])
@@ -639,16 +676,18 @@ def gen_history(rng, pool, max_units=14):
     conts = [u for u in units if u["t"] == "F" and u.get("j", 0) > 0]
     if conts and rng.random() < 0.15:
         u = rng.choice(conts)
-        _b, _c, x, y = pool.fragments[u["pic"] % NPICS][u["j"] % len(pool.fragments[u["pic"] % NPICS])]
+        _b, _c, x, y = pool.fragments[u["pic"] % pool.npics][u["j"] % len(pool.fragments[u["pic"] % pool.npics])]
         sx = pool.cfg["sx"]
         cands = [[x + sx * y, 0], [x + 1, y], [x, y + 1], [0, 0], [x + sx, y]]
         if y > 0:
             cands += [[x + sx, y - 1], [x + sx, y - 1]]
         u["xy"] = rng.choice(cands)
-    # --- offset faults
-    if rng.random() < 0.3:
-        u = rng.choice(units) if units else None
-        if u is not None:
+    # --- offset faults: one or several, and sometimes the pair "a picture or
+    # fragment omits its next offset, the following unit has a wrong previous
+    # offset" (faults right after in-flight state)
+    if units and rng.random() < 0.3:
+        for _ in range(rng.choice([1, 1, 1, 2, 3])):
+            u = rng.choice(units)
             which = rng.choice(["nx", "nx", "pv"])
             if u["t"] in ("A", "X"):
                 which = "pv"  # their next offset is their framing
@@ -656,6 +695,12 @@ def gen_history(rng, pool, max_units=14):
                 u["nx"] = rng.choice([0, 0, 1, 12, 13, 14, rng.randrange(0, 100)])
             else:
                 u["pv"] = rng.choice([0, 0, 13, rng.randrange(0, 100)])
+    pf = [k for k, u in enumerate(units[:-1]) if u["t"] in ("P", "F")]
+    if pf and rng.random() < 0.12:
+        k = rng.choice(pf)
+        units[k]["nx"] = 0
+        if rng.random() < 0.7:
+            units[k + 1]["pv"] = rng.choice([0, 13, rng.randrange(0, 200)])
     return units
 
 
@@ -669,7 +714,7 @@ def unit_repr(u):
     if s == "H":
         s += "%d/v%d/L%d" % (u["var"], u["mv"], u["lvl"])
     elif s == "P":
-        s += "%d#%d" % (u["i"], u["num"])
+        s += "%s%d#%d" % ("'" if u.get("alt") else "", u["i"], u["num"])
     elif s == "F":
         s += "%d.%d#%d" % (u["pic"], u["j"], u["num"])
     elif s in ("A", "X"):
@@ -687,6 +732,7 @@ def unit_repr(u):
 
 class UnitChanSpec(Spec):
     sim = "B"
+    guard_globals = True
     chunk = 250
     components = {
         "real": [
@@ -698,7 +744,7 @@ class UnitChanSpec(Spec):
         "stub": [
             "file object (sim.core.SimFile)",
             "data-unit channel (sim.unitchan.assemble)",
-            "LEVEL_CONSTRAINTS value table replaced in-process by one all-permitting row so that tiny pictures can carry any level number (LEVEL_SEQUENCE_RESTRICTIONS stays real)",
+            "LEVEL_CONSTRAINTS value table replaced in-process by one row per level that fixes the level and permits every other value, so that tiny pictures can carry any level number (LEVEL_SEQUENCE_RESTRICTIONS stays real); a minority arm (every 2000th run, every 250th in the thorough tier) uses QSIF525 pictures with the REAL level-1 value table",
         ],
     }
 
@@ -733,6 +779,16 @@ class C01(UnitChanSpec):
     )
 
     def generate(self, rng, idx, tier):
+        if idx % (250 if tier == "thorough" else 2000) == 249:
+            # real-level arm: QSIF525 pictures validated against the REAL level
+            # value table (level 1); the only stub left is the file object
+            prof, frag, wav = [(3, 2, 1), (0, 0, 4), (3, 0, 3), (0, 3, 1)][(idx // 250) % 4 if tier == "thorough" else (idx // 2000) % 2]
+            cfg = dict(W.qsif_config(prof, frag, wavelet=wav, pic_seed=1), real_level=1)
+            try:
+                pool = get_pool(cfg)
+            except W.WorkloadError:
+                return {"cfg": cfg, "units": []}
+            return {"cfg": cfg, "units": gen_history(rng, pool, max_units=8, levels=[1])}
         # one configuration per 125 consecutive runs (keeps the per-worker
         # cost of building unit pools low; still a pure function of seed+idx)
         k = derive_seed(self.verif_seed, "B-cfg", self.prop, idx // 125) % len(self.pool_cfgs)
@@ -761,6 +817,21 @@ class C01(UnitChanSpec):
     def execute(self, case):
         stats = Counter()
         events = [("case", repr(sorted(case["cfg"].items())), [unit_repr(u) for u in case["units"]])]
+        real = bool(case["cfg"].get("real_level"))
+        if real:
+            R.use_real_levels()
+            R.ALLOW_BASE_FORMATS[0] = True
+            stats["real-level-table-runs"] += 1
+        else:
+            R.use_permissive_levels()
+            R.ALLOW_BASE_FORMATS[0] = False
+        try:
+            return self._execute(case, stats, events)
+        finally:
+            R.ALLOW_BASE_FORMATS[0] = False
+            R.use_permissive_levels()
+
+    def _execute(self, case, stats, events):
         try:
             pool = get_pool(case["cfg"])
             data, abstract, misframed = assemble(pool, case["units"])
@@ -841,7 +912,7 @@ def conformant_sequence(rng, pool):
     if h is None:
         var = 0
         h = pool.header(0, 3, lvl)
-    mv = minimal_version(pool, uses_frag, h[1])
+    mv = minimal_version(pool, uses_frag, h[1], any(u.get("alt") for u in tmpl))
     fill_defaults(rng, tmpl, var, mv, lvl)
     n0 = rng.choice(N0_CHOICES)
     if pool.pcm == 1:
